@@ -429,7 +429,13 @@ def r8_trailing_sequences(ctx):
         rep.ob('C02.R8', ctx.loc(f, it), ctx.src(it), ok_r,
                'every suffix length 1..len(T) is tried' if ok_r else 'not every trailing sequence is tried (range %s)' % ctx.src(it), anchor=CHECK)
         # (d) same value / state for every candidate
-        ok_d = len(c.args) >= 4 and is_attr_of(c.args[0], params[0], 'want') and is_name(c.args[2], 'got_eval') and is_name(c.args[3], 'runstate')
+        a0 = c.args[0] if c.args else None
+        if isinstance(a0, ast.Name):
+            ds0 = rd.at(n, a0.id)
+            if len(ds0) == 1 and ds0[0].kind == 'assign' and isinstance(ds0[0].value, ast.AST):
+                a0 = ds0[0].value       # a local alias of the want
+        ok_d = len(c.args) >= 4 and is_attr_of(a0, params[0], 'want') and is_name(c.args[2], 'got_eval') and is_name(c.args[3], 'runstate') and \
+            all(d.kind == 'param' for nm in ('got_eval', 'runstate') for d in rd.at(n, nm))
         rep.ob('C02.R8', ctx.loc(f, c), ctx.src(c), ok_d, 'compares part.want with the candidate under the same value and run state' if ok_d else 'comparator arguments changed', nontrivial=False, anchor=CHECK)
     # (e) normal exit requires a comparison that returned normally
     dom = ctx.dom(g, g.entry)
@@ -448,6 +454,16 @@ def r8_trailing_sequences(ctx):
                 if p is not None or via_handler is not None:
                     good = False
             ok_e = good
+    if not ok_e:
+        # second idiom: the function returns straight from the `else` of the try around the comparator.  Decide it on the graph in which a
+        # comparator call cannot complete normally: if the normal exit is still reachable there, check() can return without a match.
+        cmp_nodes = [n for (n, _) in cmp_calls]
+
+        def cut(a, b, kind, tok):
+            if any(a is cn for cn in cmp_nodes) and kind == 'n':
+                return False
+            return True
+        ok_e = not any(x is g.exit for x in graph.reachable([g.entry], efilter=cut))
     rep.ob('C02.R8', ctx.loc(f, f.node), 'normal return <=> some candidate matched', ok_e,
            'check() returns normally only after a comparison completed without exception' if ok_e else
            'check() can return normally although no candidate matched (guards of the exit: %s)' % fmt_facts(facts), anchor=CHECK)
